@@ -342,6 +342,10 @@ func (f *file) ReadDir(n int) ([]hackpadfs.DirEntry, error) {
 	} else if end > int64(len(dirNames)) {
 		end = int64(len(dirNames))
 	}
+	if n > 0 && start >= int64(len(dirNames)) {
+		// no entries remain: a positive count must report the end of the directory, like os.File.ReadDir
+		return nil, io.EOF
+	}
 	offsetAdd := end - start
 
 	var entries []hackpadfs.DirEntry
